@@ -13,6 +13,8 @@ from tiv.sem import expand, trace, cx, specialize
 from tiv.srcmodel import AnalysisError
 
 RULES = {
+    "MEMO": "memo safety (shared, rules/common.py): a memoised function in this property's files (or called from them) is a function of its "
+            "arguments only (no terminal/ambient/receiver state outside the key) and no caller mutates its result in place",
     "R1": "the accepted language of _check_format_spec - read from the regex literals _FORMAT_SPEC / _NO_VERTICAL_SPEC and the "
           "boolean combination in its `if` - equals the documented grammar "
           "[h_align][width][.(v_align[height]|height)][#[threshold|bgcolor]][+style] (docs/source/guide/formatting.rst) for "
@@ -315,8 +317,12 @@ def run(ck, m):
                 ck.ob("R4", r, (cn or "").split(".")[-1] in ok_raisers, f"{q} raises {cn}, not the documented ValueError/TypeError/StyleError", stmt=f"{q}: {short(r, 60)}")
     ck.expect(nfn >= 7, f"expected >= 7 specifier-checking functions, found {nfn}")
 
+    from rules.common import rule_memo_safety
+    rule_memo_safety(ck, m, "MEMO", "C19")
+
 
 K, T = "image/kitty.py", "image/iterm2.py"
+
 MUTANTS = [
     M("revert-fix-novert", CM, None, r'\.(#(\.\d+|[0-9a-fA-F]{6}|#)?)?(\+(.+))?", re.ASCII', r'\.(#(\.\d+|[0-9a-fA-F]{6})?)?", re.ASCII', {"R1"}),
     M("novert-lowercase-hex", CM, None, r'\.(#(\.\d+|[0-9a-fA-F]{6}|#)?)?(\+(.+))?"', r'\.(#(\.\d+|[0-9a-f]{6}|#)?)?(\+(.+))?"', {"R1"}),
